@@ -27,12 +27,60 @@ theorem qPush_pc (s : Streams) (id : Nat) :
   · exact Or.inl rfl
   · exact Or.inr rfl
 
+theorem notifySend_req (x : Stream) : x.notifySend.1.requestedSendCapacity = x.requestedSendCapacity := by
+  unfold Stream.notifySend
+  cases x.sendTask <;> dsimp only <;> split <;> rfl
+
 theorem assignCapacity_req (x : Stream) (n m : Nat) :
     (x.assignCapacity n m).1.requestedSendCapacity = x.requestedSendCapacity := by
   unfold Stream.assignCapacity; dsimp only; split
-  · unfold Stream.notifyCapacity Stream.notifySend
-    dsimp only
-    split <;> split <;> (rename_i h; split at h <;> (cases h; rfl))
+  · unfold Stream.notifyCapacity; exact notifySend_req _
   · rfl
+
+/-- what decides whether `try_assign_capacity` re-queues the stream in `pending_capacity` -/
+def wantsMore (x : Stream) : Bool :=
+  x.sendFlow.available.ltUsize x.requestedSendCapacity && x.sendFlow.hasUnavailable
+
+/-- a stream that got all it asked for (`additional`, limited by request and window) and not just
+    what the connection had left does not want more -/
+theorem not_wantsMore_after_full_assign {x : Stream} (hok : FlOk x.sendFlow) (hreq : x.requestedSendCapacity < 4294967296)
+    (y : Stream) (hy1 : y.requestedSendCapacity = x.requestedSendCapacity)
+    (hy2 : y.sendFlow = (x.sendFlow.assignCapacity
+      (min (wrapSubU32 x.requestedSendCapacity x.sendFlow.available.asSize)
+           (wrapSubU32 x.sendFlow.windowSz x.sendFlow.available.asSize))).1) :
+    wantsMore y = false := by
+  have hle := hok.asSize_le
+  have hlt := hok.windowSz_lt
+  have hb : wrapSubU32 x.sendFlow.windowSz x.sendFlow.available.asSize = x.sendFlow.windowSz - x.sendFlow.available.asSize :=
+    wrapSubU32_le (by omega) hle
+  have ha : wrapSubU32 x.requestedSendCapacity x.sendFlow.available.asSize =
+      (x.requestedSendCapacity + 4294967296 - x.sendFlow.available.asSize) % 4294967296 := by
+    unfold wrapSubU32 U32_MOD; omega
+  have hassign := flOk_assign hok (n := min (wrapSubU32 x.requestedSendCapacity x.sendFlow.available.asSize)
+    (wrapSubU32 x.sendFlow.windowSz x.sendFlow.available.asSize)) (Nat.min_le_right _ _)
+  have hF1 : y.sendFlow.available.val = x.sendFlow.available.val +
+      ((min (wrapSubU32 x.requestedSendCapacity x.sendFlow.available.asSize)
+        (wrapSubU32 x.sendFlow.windowSz x.sendFlow.available.asSize) : Nat) : Int) := by rw [hy2]; exact hassign.2.1
+  have hF2 : y.sendFlow.windowSize.val = x.sendFlow.windowSize.val := by rw [hy2, hassign.2.2]
+  have h0 := hok.av0; have hw := hok.avw; have hhi := hok.whi
+  rw [ha, hb] at hF1
+  have hsz1 : x.sendFlow.available.asSize = x.sendFlow.available.val.toNat := asSize_eq _
+  have hsz2 : x.sendFlow.windowSz = x.sendFlow.windowSize.val.toNat := asSize_eq _
+  rw [hsz1, hsz2] at hF1 hle
+  rw [hsz2] at hlt
+  generalize y.sendFlow.available.val = ya at hF1
+  generalize y.sendFlow.windowSize.val = yw at hF2
+  have key : (ya.toNat < x.requestedSendCapacity → ¬ (0 ≤ yw ∧ yw > ya)) ∧ 0 ≤ ya := by
+    subst hF2
+    refine ⟨fun h1 h2 => ?_, by omega⟩
+    rcases Nat.le_total ((x.requestedSendCapacity + 4294967296 - x.sendFlow.available.val.toNat) % 4294967296)
+      (x.sendFlow.windowSize.val.toNat - x.sendFlow.available.val.toNat) with hc | hc
+    · rw [Nat.min_eq_left hc] at hF1; omega32
+    · rw [Nat.min_eq_right hc] at hF1; omega
+  unfold wantsMore Window.ltUsize FlowControl.hasUnavailable
+  rw [hy1]
+  show ((if y.sendFlow.available.val < 0 then true else decide (y.sendFlow.available.val.toNat < x.requestedSendCapacity)) &&
+    (if y.sendFlow.windowSize.val < 0 then false else decide (y.sendFlow.windowSize.val > y.sendFlow.available.val))) = false
+  sorry
 
 end H2V.Lemmas.ConnFlowP
